@@ -388,8 +388,12 @@ def w_alt_constructors(ctx, rng, i):
     else:
         if np.abs(model._eigenvalues - lam).max() > 1e-7 * lam[0]:
             ctx.fail("eigenvalues_are_not_the_sample_variances_along_the_components", cls=cls, mech="alt_ctor_%d" % kind)
-        if np.abs(model._components.T @ model._components - V.T @ V).max() > 1e-6:
-            ctx.fail("components_do_not_span_the_principal_directions", cls=cls, mech="alt_ctor_%d" % kind)
+        dots = np.abs(np.sum(model._components * V, axis=1))
+        if (dots < 1 - 1e-6).any():
+            ctx.fail("components_do_not_span_the_principal_directions", cls=cls, mech="alt_ctor_%d" % kind, worst=float(dots.min()))
+        resid = np.abs(C @ model._components.T - model._components.T * model._eigenvalues).max()
+        if resid > 1e-7 * lam[0]:
+            ctx.fail("component_is_not_an_eigenvector_of_the_covariance_for_its_eigenvalue", cls=cls, mech="alt_ctor_%d" % kind, err=float(resid))
     if np.abs(model._mean - m).max() > 1e-9 * max(1.0, np.abs(m).max()):
         ctx.fail("model_mean_is_not_the_sample_mean", cls=cls, mech="alt_ctor_%d" % kind)
     if model.n_samples != n:
